@@ -1655,6 +1655,189 @@ def translate_codec(repo: str):
     return out
 
 
+# ------------------------------------------------------------------------------------------------
+# The MQTT topic <-> line mapping (transport/mqtt.py) -> Generated/MqttBodies.lean over Model/LitMqtt.lean
+
+
+class TrMqtt:
+    """Straight-line code over str / list[str] values, with tuple assignments that may raise ValueError."""
+
+    def __init__(self, fn, params: dict):
+        self.fn = fn
+        self.env = dict(params)      # name -> (lean, type): 'str' | 'list' | 'int'
+        self.n = 0
+
+    def fresh(self, b):
+        self.n += 1
+        return f"{b}{self.n}"
+
+    def char(self, node) -> str:
+        if isinstance(node, ast.Constant) and isinstance(node.value, str) and len(node.value) == 1:
+            return f"(Char.ofNat {ord(node.value)})"
+        raise Untranslatable("separator that is not a one-character literal")
+
+    def expr(self, node):
+        """-> (binds, text, type); binds = [(pattern, PM term)]"""
+        if isinstance(node, ast.Name) and node.id in self.env:
+            return [], *self.env[node.id]
+        if isinstance(node, ast.Attribute) and isinstance(node.value, ast.Name) and node.value.id == "self" and node.attr in self.env:
+            return [], *self.env[node.attr]
+        if isinstance(node, ast.Call) and isinstance(node.func, ast.Attribute) and not node.keywords:
+            f = node.func
+            if f.attr == "rstrip" and not node.args:
+                b, t, ty = self.expr(f.value)
+                if ty == "str":
+                    return b, f"(rstrip {t})", "str"
+            if f.attr == "split" and len(node.args) in (1, 2):
+                b, t, ty = self.expr(f.value)
+                if ty == "str":
+                    d = self.char(node.args[0])
+                    if len(node.args) == 1:
+                        return b, f"(splitOn {d} {t})", "list"
+                    if isinstance(node.args[1], ast.Constant) and isinstance(node.args[1].value, int) and node.args[1].value >= 0:
+                        return b, f"(splitN {d} {node.args[1].value} {t})", "list"
+            if f.attr == "join" and len(node.args) == 1:
+                d = self.char(f.value)
+                b, t, ty = self.expr(node.args[0])
+                if ty == "list":
+                    return b, f"(joinWith {d} {t})", "str"
+        if isinstance(node, ast.Call) and isinstance(node.func, ast.Name) and node.func.id == "int" and len(node.args) == 1 and not node.keywords:
+            b, t, ty = self.expr(node.args[0])
+            if ty == "str":
+                v = self.fresh("q")
+                return b + [(v, f"(LMq.pyInt {t})")], v, "int"
+        # xs[-k:]
+        if isinstance(node, ast.Subscript) and isinstance(node.slice, ast.Slice) and node.slice.upper is None and node.slice.step is None \
+                and isinstance(node.slice.lower, ast.UnaryOp) and isinstance(node.slice.lower.op, ast.USub) \
+                and isinstance(node.slice.lower.operand, ast.Constant) and isinstance(node.slice.lower.operand.value, int) \
+                and node.slice.lower.operand.value > 0:
+            b, t, ty = self.expr(node.value)
+            if ty == "list":
+                return b, f"(LMq.lastN {node.slice.lower.operand.value} {t})", "list"
+        # f"{a}/{b}"
+        if isinstance(node, ast.JoinedStr):
+            parts, binds = [], []
+            for v in node.values:
+                if isinstance(v, ast.Constant) and isinstance(v.value, str):
+                    parts.append(lean_str(v.value))
+                elif isinstance(v, ast.FormattedValue) and v.conversion == -1 and v.format_spec is None:
+                    b, t, ty = self.expr(v.value)
+                    if ty != "str":
+                        raise Untranslatable("f-string of a non-str")
+                    binds += b
+                    parts.append(t)
+                else:
+                    raise Untranslatable("f-string part")
+            return binds, "(" + " ++ ".join(parts) + ")", "str"
+        raise Untranslatable(f"mqtt expression {ast.unparse(node)[:60]}")
+
+    def wrap(self, binds, body):
+        for pat, m in reversed(binds):
+            body = f"(LMq.bind {m} fun {pat} =>\n  {body})"
+        return body
+
+    def block(self, stmts, ret_pure: bool) -> str:
+        stmts = strip(stmts)
+        if not stmts:
+            raise Untranslatable("function falls off its end")
+        st, rest = stmts[0], stmts[1:]
+        if isinstance(st, ast.Return) and st.value is not None:
+            if rest:
+                raise Untranslatable("code after return")
+            elts = st.value.elts if isinstance(st.value, ast.Tuple) else [st.value]
+            binds, texts = [], []
+            for e in elts:
+                b, t, ty = self.expr(e)
+                binds += b
+                texts.append(t)
+            val = texts[0] if len(texts) == 1 else "(" + ", ".join(texts) + ")"
+            if ret_pure:
+                if binds:
+                    raise Untranslatable("a function declared total can raise")
+                return val
+            return self.wrap(binds, f"(.ok {val})")
+        if isinstance(st, ast.Assign) and len(st.targets) == 1:
+            t = st.targets[0]
+            b, v, ty = self.expr(st.value)
+            if isinstance(t, ast.Name):
+                self.env[t.id] = (v, ty)
+                body = self.block(rest, ret_pure)
+                if b and ret_pure:
+                    raise Untranslatable("a function declared total can raise")
+                return self.wrap(b, body)
+            if isinstance(t, ast.Tuple) and ty == "list":
+                names = t.elts
+                stars = [i for i, e in enumerate(names) if isinstance(e, ast.Starred)]
+                if ret_pure:
+                    raise Untranslatable("a function declared total can raise")
+                if stars == [0] and len(names) == 2 and isinstance(names[0].value, ast.Name) and isinstance(names[1], ast.Name):
+                    a, c = self.fresh("init"), self.fresh("last")
+                    self.env[names[0].value.id] = (a, "list")
+                    self.env[names[1].id] = (c, "str")
+                    return self.wrap(b + [(f"({a}, {c})", f"(LMq.unpackInitLast {v})")], self.block(rest, ret_pure))
+                if not stars and len(names) == 5 and all(isinstance(e, ast.Name) for e in names):
+                    vs = []
+                    for e in names:
+                        x = self.fresh("u")
+                        vs.append(x)
+                        if e.id != "_":
+                            self.env[e.id] = (x, "str")
+                    return self.wrap(b + [("(" + ", ".join(vs) + ")", f"(LMq.unpack5 {v})")], self.block(rest, ret_pure))
+            raise Untranslatable(f"assignment target {ast.unparse(t)[:40]}")
+        # xs.append(x)
+        if isinstance(st, ast.Expr) and isinstance(st.value, ast.Call) and isinstance(st.value.func, ast.Attribute) \
+                and st.value.func.attr == "append" and isinstance(st.value.func.value, ast.Name) and len(st.value.args) == 1:
+            name = st.value.func.value.id
+            if self.env.get(name, ("", ""))[1] == "list":
+                b, v, ty = self.expr(st.value.args[0])
+                if b or ty != "str":
+                    raise Untranslatable("append of a non-str")
+                self.env[name] = (f"({self.env[name][0]} ++ [{v}])", "list")
+                return self.block(rest, ret_pure)
+        raise Untranslatable(f"mqtt statement {ast.unparse(st)[:60]}")
+
+
+MQTT_HEADER = """/-
+GENERATED by tools/translate.py from the topic <-> line mapping of `MQTTTransport` (transport/mqtt.py) — do not edit.
+Regenerated on every check run of C18; rewritten only when its content changes.  A definition marked
+`-- snapshot` could not be translated on this run and is the last committed translation.
+-/
+import AioMySensors.Model.LitMqtt
+
+set_option linter.unusedVariables false
+
+namespace AioMySensors.GenMqtt
+open AioMySensors
+
+"""
+MQTT_ORDER = ["parse_message_to_mqtt", "parse_mqtt_to_message"]
+
+
+def translate_mqtt(repo: str):
+    sys.path.insert(0, os.path.join(repo, "src"))
+    mod = importlib.import_module("aiomysensors.transport.mqtt")
+    out = {}
+    try:
+        fn = mod.MQTTTransport.__dict__["_parse_message_to_mqtt"]
+        if list(inspect.signature(fn).parameters) != ["self", "decoded_message"]:
+            raise Untranslatable("signature changed")
+        tr = TrMqtt(fn, {"decoded_message": ("decoded_message", "str"), "out_prefix": ("out_prefix", "str")})
+        out["parse_message_to_mqtt"] = {"lean": "def parse_message_to_mqtt (out_prefix : Str) (decoded_message : Str) : LMq.PM (Str × Str × Int) :=\n  "
+                                        + tr.block(fn_ast(fn).body, False)}
+    except (Untranslatable, KeyError, TypeError, OSError, AttributeError, IndexError) as err:
+        out["parse_message_to_mqtt"] = {"error": f"{type(err).__name__}: {err}"[:300]}
+    try:
+        fn = mod.MQTTTransport.__dict__["_parse_mqtt_to_message"]
+        fn = fn.__func__ if isinstance(fn, staticmethod) else fn
+        if list(inspect.signature(fn).parameters) != ["topic", "payload"]:
+            raise Untranslatable("signature changed")
+        tr = TrMqtt(fn, {"topic": ("topic", "str"), "payload": ("payload", "str")})
+        out["parse_mqtt_to_message"] = {"lean": "def parse_mqtt_to_message (topic payload : Str) : Str :=\n  " + tr.block(fn_ast(fn).body, True)}
+    except (Untranslatable, KeyError, TypeError, OSError, AttributeError, IndexError) as err:
+        out["parse_mqtt_to_message"] = {"error": f"{type(err).__name__}: {err}"[:300]}
+    return out
+
+
 HEADER = """/-
 GENERATED by tools/translate.py from the handler bodies of the aiomysensors working tree — do not edit.
 Regenerated on every check run; rewritten only when its content changes.  A definition marked
@@ -1770,6 +1953,7 @@ def main() -> int:
     ap.add_argument("--update-snapshot", action="store_true")
     ap.add_argument("--stream-out", default=None, help="also translate StreamTransport into this file")
     ap.add_argument("--codec-out", default=None, help="also translate the decoder's validators into this file")
+    ap.add_argument("--mqtt-out", default=None, help="also translate the MQTT topic/line mapping into this file")
     ap.add_argument("--force-snapshot", action="store_true", help="write every body from the snapshot")
     a = ap.parse_args()
     try:
@@ -1882,6 +2066,43 @@ def main() -> int:
             with open(a.snapshot, encoding="utf-8") as f:
                 cur = json.load(f)
             cur.update({"codec." + n: cres[n]["lean"] for n in CODEC_ORDER if "lean" in cres.get(n, {})})
+            with open(a.snapshot, "w", encoding="utf-8") as f:
+                json.dump(cur, f, indent=1, sort_keys=True)
+        if a.json:
+            with open(a.json, "w", encoding="utf-8") as f:
+                json.dump(status, f, indent=1, sort_keys=True)
+    if a.mqtt_out:
+        try:
+            mres = {} if a.force_snapshot else translate_mqtt(a.repo)
+        except Exception as err:  # noqa: BLE001
+            print(f"TRANSLATE-MQTT-FAILED {type(err).__name__}: {err}")
+            mres = {}
+        mchunks = []
+        for name in MQTT_ORDER:
+            key = "mqtt." + name
+            r = mres.get(name, {"error": "snapshot forced" if a.force_snapshot else "not attempted"})
+            if "lean" in r:
+                mchunks.append(r["lean"])
+                status[key] = "translated" if snap.get(key) == r["lean"] else "translated-changed"
+            elif key in snap:
+                mchunks.append("-- snapshot (untranslatable on this run: " + r["error"].replace("\n", " ") + ")\n" + snap[key])
+                status[key] = "untranslatable: " + r["error"]
+            else:
+                print(f"TRANSLATE-FAILED {key}: {r['error']} (and no snapshot)")
+                return 1
+        mtext = MQTT_HEADER + "\n\n".join(mchunks) + "\n\nend AioMySensors.GenMqtt\n"
+        try:
+            with open(a.mqtt_out, encoding="utf-8") as f:
+                mold = f.read()
+        except OSError:
+            mold = None
+        if mold != mtext:
+            with open(a.mqtt_out, "w", encoding="utf-8") as f:
+                f.write(mtext)
+        if a.update_snapshot:
+            with open(a.snapshot, encoding="utf-8") as f:
+                cur = json.load(f)
+            cur.update({"mqtt." + n: mres[n]["lean"] for n in MQTT_ORDER if "lean" in mres.get(n, {})})
             with open(a.snapshot, "w", encoding="utf-8") as f:
                 json.dump(cur, f, indent=1, sort_keys=True)
         if a.json:
